@@ -771,8 +771,89 @@ func concurrencyBatch(seed uint64, nbytes int, Gs []int, perG int) c18Result {
 	return out
 }
 
+// mixedLengthBatch: one goroutine per input size, all released together, each calling the
+// length-sensitive entry points (DFT family, block frequency, longest run, Round12) a few times.
+func mixedLengthBatch(seed uint64, sizes []int, rounds int) c18Result {
+	var out c18Result
+	type job struct {
+		data []byte
+		bits []bool
+		snap []byte
+		solo [][]float64
+	}
+	pq := func(p, q float64) []float64 { return []float64{p, q} }
+	calls := []pureCall{
+		{"DFT", func(d []byte, b []bool) []float64 { return pq(R.DiscreteFourierTransformTest(b)) }},
+		{"DFTBytes", func(d []byte, b []bool) []float64 { return pq(R.DiscreteFourierTransformTestBytes(d)) }},
+		{"registry[15]", func(d []byte, b []bool) []float64 {
+			r := R.TestMethodArr[14].Runner(d)
+			return []float64{r.P, r.Q}
+		}},
+		{"FrequencyWithinBlockTest", func(d []byte, b []bool) []float64 { return pq(R.FrequencyWithinBlockTest(b)) }},
+		{"LongestRun1", func(d []byte, b []bool) []float64 { return pq(R.LongestRunOfOnesInABlockProto(b, true)) }},
+		{"BinaryDerivative7", func(d []byte, b []bool) []float64 { return pq(R.BinaryDerivativeProto(b, 7)) }},
+		{"Poker8", func(d []byte, b []bool) []float64 { return pq(R.PokerTestBytes(d, 8)) }},
+		{"MatrixRank", func(d []byte, b []bool) []float64 { return pq(R.MatrixRankProto(b, 32, 32)) }},
+	}
+	jobs := make([]*job, len(sizes))
+	for i, nb := range sizes {
+		bits := gen.Seq{Fam: "slight", N: nb * 8, Seed: gen.Mix(seed, uint64(nb))}.Bits()
+		j := &job{data: gen.Pack(bits), bits: gen.Bools(bits)}
+		j.snap = append([]byte(nil), j.data...)
+		j.solo = make([][]float64, len(calls))
+		for ci, cl := range calls {
+			ci, cl := ci, cl
+			if p, m := guard(func() { j.solo[ci] = cl.Fn(j.data, j.bits) }); p {
+				out.Mismatches = append(out.Mismatches, cl.Name+" solo: "+clip(m, 200))
+			}
+		}
+		jobs[i] = j
+	}
+	var mu sync.Mutex
+	for round := 0; round < rounds; round++ {
+		var wg sync.WaitGroup
+		start := make(chan struct{})
+		for gi, j := range jobs {
+			for rep := 0; rep < 2; rep++ {
+				wg.Add(1)
+				go func(gi, rep int, j *job) {
+					defer wg.Done()
+					<-start
+					for k := 0; k < len(calls); k++ {
+						ci := (k + gi + rep + round) % len(calls)
+						var got []float64
+						if p, m := guard(func() { got = calls[ci].Fn(j.data, j.bits) }); p {
+							mu.Lock()
+							out.Mismatches = append(out.Mismatches, fmt.Sprintf("%s on %d bytes, concurrent with other lengths: %s", calls[ci].Name, len(j.data), clip(m, 300)))
+							mu.Unlock()
+							continue
+						}
+						mu.Lock()
+						out.Calls++
+						if !sameVec(got, j.solo[ci]) && len(out.Mismatches) < 20 {
+							out.Mismatches = append(out.Mismatches, fmt.Sprintf("%s on %d bytes, concurrent with other lengths %v: %v, alone %v", calls[ci].Name, len(j.data), sizes, got, j.solo[ci]))
+						}
+						mu.Unlock()
+					}
+				}(gi, rep, j)
+			}
+		}
+		close(start)
+		wg.Wait()
+	}
+	for _, j := range jobs {
+		for i := range j.data {
+			if j.data[i] != j.snap[i] {
+				out.InputChanged = append(out.InputChanged, fmt.Sprintf("byte slice of %d bytes changed at index %d", len(j.data), i))
+				break
+			}
+		}
+	}
+	return out
+}
+
 func runC18(c *ev.Ctx) {
-	c.Rule = "(a) every test entry point is called on byte and bit slices whose contents and spare capacity (canary-filled) are snapshotted before and compared after; (b) each call is repeated and must be bit-identical; (c) G in {2,8,64} goroutines released together each run a seeded mix of the fifteen tests, byte/bit entry points, registry runners and both round functions on one shared buffer and on private buffers: every result must be bit-identical to the solo result; (d) the same mixes run in a -race build and DATA RACE reports are violations; (e) the registry is unchanged. non-trivial = every call (each compares a real result vector); distinct = distinct (entry point, buffer, goroutine count, sharing)"
+	c.Rule = "(a) every test entry point is called on byte and bit slices whose contents and spare capacity (canary-filled) are snapshotted before and compared after; (b) each call is repeated and must be bit-identical; (c) G in {2,8,64} goroutines released together each run a seeded mix of the fifteen tests, byte/bit entry points, registry runners and both round functions on one shared buffer and on private buffers: every result must be bit-identical to the solo result; (c2) one goroutine pair per input size (2.5 kB ... 300 kB, i.e. FFT lengths 2^15 ... 2^22) released together on the length-sensitive entry points; (d) the same mixes run in a -race build and DATA RACE reports are violations; (e) the registry is unchanged. non-trivial = every call (each compares a real result vector); distinct = distinct (entry point, buffer, goroutine count, sharing)"
 	c.Assumptions = []string{"the Go race detector reports only races that occur in an observed execution"}
 	seed := uint64(c.Seed)
 	before := append([]R.TestItem(nil), R.TestMethodArr...)
@@ -854,6 +935,27 @@ func runC18(c *ev.Ctx) {
 			c.Sample(map[string]interface{}{"bytes": nb, "goroutine_counts": []int{2, 8, 64}, "calls_per_goroutine": perG, "concurrent_calls": res.Calls, "mismatches": len(res.Mismatches)})
 		}
 	}
+	// (c2) mixed lengths at once: goroutines on inputs of different sizes (different FFT plan lengths,
+	// different block-length regimes), released together; every result must equal the solo result
+	{
+		sizes := []int{2500, 12500, 20001, 125000, 150000, 131073, 300000}
+		rounds := 2
+		if c.Thorough() {
+			sizes = append(sizes, 600000, 1250000)
+			rounds = 4
+		}
+		res := mixedLengthBatch(gen.Mix(seed, 1818), sizes, rounds)
+		c.Count("mixed_length_concurrent_calls", int64(res.Calls))
+		for k := 0; k < res.Calls; k++ {
+			c.Eval(ev.HashStr(fmt.Sprintf("mixed|%d", k)), true)
+		}
+		for _, m := range res.Mismatches {
+			c.Violation("concurrent-mixed-lengths:"+clip(m, 40), m, "c18", 0)
+		}
+		for _, m := range res.InputChanged {
+			c.Violation("concurrent-mixed-lengths:input-modified", m, "c18", 0)
+		}
+	}
 	// (d) the same under the race detector (child process built with -race)
 	if rb := os.Getenv("VERIF_BIN_RACE"); rb != "" {
 		work := os.Getenv("VERIF_WORK")
@@ -930,6 +1032,12 @@ func init() {
 			} else {
 				cur = cur*10 + int(ch-'0')
 			}
+		}
+		{
+			r := mixedLengthBatch(gen.Mix(seed, 1819), []int{1250, 2500, 4100, 12500, 16400, 20001}, 2)
+			total.Calls += r.Calls
+			total.Mismatches = append(total.Mismatches, r.Mismatches...)
+			total.InputChanged = append(total.InputChanged, r.InputChanged...)
 		}
 		for _, nb := range sizes {
 			per := 4
